@@ -1512,3 +1512,28 @@ pub mod vshutdown {
         }
     }
 }
+
+// ---------------------------------------------------------------------------------------
+// Service channels (C18)
+
+/// `HttpDemux::select` for a request head; protocol 1 / 2 / 3
+pub fn http_demux_select(core: &Core, protocol: u8, method: &str, uri: &str, headers: &[(String, String)]) -> Option<&'static str> {
+    let mut b = http::Request::builder().method(method).uri(uri);
+    for (n, v) in headers {
+        b = b.header(n.as_str(), v.as_str());
+    }
+    let parts = b.body(()).ok()?.into_parts().0;
+    let proto = match protocol {
+        1 => crate::tls_demultiplexer::Protocol::Http1,
+        2 => crate::tls_demultiplexer::Protocol::Http2,
+        _ => crate::tls_demultiplexer::Protocol::Http3,
+    };
+    Some(
+        match crate::http_demultiplexer::HttpDemux::new(core.verif_settings()).select(proto, &parts) {
+            net_utils::Channel::Tunnel => "tunnel",
+            net_utils::Channel::Ping => "ping",
+            net_utils::Channel::Speedtest => "speedtest",
+            net_utils::Channel::ReverseProxy => "reverseproxy",
+        },
+    )
+}
